@@ -24,7 +24,6 @@ import (
 	driver "github.com/XiaoMi/Gaea/parser/tidb-types/parser_driver"
 	"github.com/XiaoMi/Gaea/parser/types"
 	"github.com/XiaoMi/Gaea/proxy/router"
-	"github.com/XiaoMi/Gaea/util"
 )
 
 // type check
@@ -127,15 +126,27 @@ func getPatternInRouteResult(n *ast.ColumnName, isNotIn bool, rule router.Rule, 
 		return indexes, valueMap, nil
 	}
 
-	var indexes []int
-	valueMap := make(map[int][]ast.ExprNode)
+	// a listed value the rule cannot place may match rows of any sub table: the whole list goes
+	// to every sub table
+	keys := make([]interface{}, 0, len(values))
 	for _, vi := range values {
 		v, _ := vi.(*driver.ValueExpr)
-		value, err := util.GetValueExprResult(v)
+		value, routable, err := getShardingCompareValue(rule, v)
 		if err != nil {
 			return nil, nil, err
 		}
-		idx, err := rule.FindTableIndex(value)
+		if !routable {
+			indexes := rule.GetSubTableIndexes()
+			valueMap := getBroadcastValueMap(indexes, values)
+			return indexes, valueMap, nil
+		}
+		keys = append(keys, value)
+	}
+
+	var indexes []int
+	valueMap := make(map[int][]ast.ExprNode)
+	for i, vi := range values {
+		idx, err := rule.FindTableIndex(keys[i])
 		if err != nil {
 			return nil, nil, err
 		}
